@@ -4,6 +4,7 @@ import FunsorVerif.Core.XR
 import FunsorVerif.Model.TermParse
 import FunsorVerif.Model.C01Ext
 import FunsorVerif.Model.C01Fin
+import FunsorVerif.Model.C01Slice
 namespace FV.Drv.C01
 open FV FV.C01
 
@@ -36,6 +37,8 @@ def ntTable (t : NT) (ins : List (Name × Nat)) (env : Env) : List (Option Sem) 
   C01 fv TERM                           free names of the term
   C01 finstack d (TERM*)                the model of eager_finitary_stack (Model/C01Fin: `finStack`) on evaluated parts,
                                         new event axis at position d
+  C01 pyslice n START STOP step         positions read by x[START:STOP:step] on an axis of size n (START/STOP = int | none),
+                                        Model/C01Slice `slicePositions`: `ok (p*)` or `ok none` (step = 0 raises)
 -/
 def handle (args : List Sexp) : String :=
   match args with
@@ -79,6 +82,15 @@ def handle (args : List Sexp) : String :=
       | some r => "ok " ++ toString (ntToSexp r)
       | none => "ok none"
     | _, _ => "err bad-args"
+  | [Sexp.atom "pyslice", n, a, b, c] =>
+    let optInt (x : Sexp) : Option (Option Int) :=
+      if x.asAtom? == some "none" then some none else x.asInt?.map some
+    match n.asNat?, optInt a, optInt b, c.asInt? with
+    | some n, some a, some b, some c =>
+      match slicePositions n a b c with
+      | some ps => "ok " ++ toString (Sexp.ofNats ps)
+      | none => "ok none"
+    | _, _, _, _ => "err bad-args"
   | _ => "err bad-request"
 
 end FV.Drv.C01
